@@ -608,7 +608,7 @@ def main():
         "the fresh reference enforcer is a real casbin.Enforcer loading the current policy through an in-memory adapter",
     ]
     chk.trusted = ["hand-written models coq/theories/{Policy,RoleGraph,Mgmt}.v tied by the differential history correspondence"]
-    chk.build(oracle_name="Mgmt")
+    chk.build(translators=["rolelinks"], oracle_name="Mgmt")
     if chk.replay_file:
         return replay(chk)
     if chk.tier == "thorough":
